@@ -26,6 +26,8 @@ import Sqfs.Proofs.BPFinal
 import Sqfs.Proofs.BPSpecPack
 import Sqfs.Proofs.C02Worker
 import Sqfs.Proofs.BPFailRun
+import Sqfs.Proofs.BPSPCor
+import Sqfs.Props.C17
 import Sqfs.Witness.C02
 import Sqfs.Props.C09
 import Sqfs.Model.BuildEnv
@@ -93,30 +95,35 @@ theorem finish_writes_everything (P : Params) (hc : CodecOk P.codec) (hB0 : 0 < 
     exact ⟨hf.ioQueue, hf.pool, hf.backlog, hf.deq, hf.fragBlock⟩
   · rw [hr] at h; cases h
 
-/-! ### towards `specPack` (DESIGN.md Appendix B)
+/-! ### `specPack` (DESIGN.md Appendix B, `Spec/PackSpec.lean`: the specification C17's directive theorems and the
+read-back theorem are stated against)
 
-Full statement, **not proved**:
+`run_eq_spec` reduces "the implementation model computes `specPack`" to `packRef = specPack`, a statement about two pure
+functions; it is proved in `Proofs/BPSP*.lean` (`Sqfs.BlockProc.packRef_eq_specPack`: closed form of the front end; the
+writer pass against `Pack.placeBlocks` through C08's `Abs` / `dedup_explicit`; the fragment pass against `Pack.placeTail` —
+`insertRef` replaces an equal key, `specPack` conses in front, every lookup answers the same; per-inode folds of the update
+lists).  The two do not have the same type, so the equality is stated on the observables they share, `PackView` = the whole
+output file, the fragment table, the inode fields of every file as the tools serialise them:
 
-    theorem run_eq_specPack (P) (hc : CodecOk P.codec) (hpos : ∀ x z, P.codec.cmp x = some z → 0 < z.length)
-        (hB0 : 0 < P.B) (hB : P.B < 2 ^ 24) (mb) (files) (hfl : ∀ f ∈ files, f.flags &&& blkUserSettable = f.flags) :
-        ∃ out, run (serial P) mb files = .ok out ∧
-          let o := Pack.specPack (toPackParams P) (files.map fun f => ⟨Pack.Flags.ofNat f.flags, f.data⟩)
-          out.file = P.pre ++ o.area ∧
-          out.frags = o.frags.map (fun e => (e.start, (Pack.Word.stored e.size e.raw).toNat)) ∧
-          out.files = o.files.map (fun r => ⟨r.size, r.words.map Pack.Word.toNat, r.start,
-                                            (r.frag.map (·.1)).getD 0xFFFFFFFF, (r.frag.map (·.2)).getD 0xFFFFFFFF,
-                                            r.sparse, r.extended⟩)
+  * `Output.view` forgets `calls`, the log of `write_data_block` calls (it contains the size-0 sentinel blocks and the
+    sparse blocks, which leave no trace in the layout);
+  * `specView` forgets `shared` (a ghost field of `FileResult`) and the block boundaries of `Out.blocks` (the data area is
+    the concatenation of the payloads) and encodes words / fragment references as the C values.
 
-`run_eq_spec` reduces it to `packRef = specPack`, a statement about two pure functions.  What is missing:
- (1) the closed form of the front end: `feFile` (the loop of `append`) produces `Pack.fullBlocks`/`Pack.tailOf` with the
-     `FIRST`/`LAST`/sentinel/`IS_FRAGMENT` pattern of Appendix B;
- (2) the writer pass against `Pack.placeBlocks`: `Sqfs.C08.bw_refines_spec` relates `write_data_block` to the checksum-free
-     `SState` specification of Spec/BlockWriter.lean; `SState` ↔ `placeBlocks`/`findMatch` (payload lists instead of
-     a byte string with offsets) is not proved;
- (3) the fragment pass against `Pack.placeTail`: `specPack` keeps the chunks newest first and never replaces, `fStep` follows
-     the hash table (insert replaces an equal key); equal on reachable states by `Sqfs.C08.frag_lookup_unique`, not proved here.
-Proved: the per-block worker rule.  The equality is *exercised* on every run: tools/checks/c02.py compares `packRef`, and
-tools/checks/c17.py compares `specPack`, with the same real code. -/
+Hypotheses on top of `run_eq_spec`'s: `hpos` (a successful `do_block` returns a positive size — part of `Pack.Codec.Ok`),
+user-settable flag words (otherwise `begin_file` refuses), and `byteCompare` (`file` and `uncmp` given to the processor, as
+`lib/common/src/writer/init.c` does): without the byte comparison the implementation deduplicates a fragment against a
+different one with the same size, checksum and `DONT_COMPRESS` flag, which `specPack` does not (counterexample in
+`Proofs/BPSPFinal.lean`). -/
+
+/-- **`run_eq_specPack`.**  For every `max_backlog` the implementation model on the serial pool produces the `specPack`
+layout: same output file, same fragment table, same inode fields of every file. -/
+theorem run_eq_specPack (P : Params) (hc : CodecOk P.codec) (hpos : ∀ x z, P.codec.cmp x = some z → 0 < z.length)
+    (hbc : P.byteCompare = true) (hB0 : 0 < P.B) (hB : P.B < 2 ^ 24) (mb : Nat) (files : List InFile)
+    (hfl : ∀ f ∈ files, f.flags &&& Consts.blkUserSettable = f.flags) :
+    ∃ out, run (serial P) mb files = .ok out ∧
+      out.view = specView P.pre (Sqfs.Pack.specPack (toPackParams P) (toPackFiles files)) :=
+  Sqfs.BlockProc.run_eq_specPack (serial P) rfl hc hpos hbc hB0 hB mb files hfl false
 
 /-- **`run_eq_specPack_partial`.**  `process_block` on a non-empty data block is `specPack`'s `workData`: the block is a
 hole (nothing stored, `sparse += size`), or it is stored raw / compressed with the checksum `workData` says. -/
@@ -180,6 +187,87 @@ theorem jobs_independent (P : Params) (hc : CodecOk P.codec) (hB0 : 0 < P.B) (hB
   rw [(schedule_independent P hc hB0 hB n₁ beh₁ h₁ mb₁ files).2, (schedule_independent P hc hB0 hB n₂ beh₂ h₂ mb₂ files).2]
 
 
+
+/-! ### the threaded block processor computes `specPack`: carry-over of C17's and C08's theorems -/
+
+/-- **`threaded_eq_specPack`.**  … and so does the block processor on top of *any* behaviour of the threaded pool: any
+number of workers, any schedule, any backlog. -/
+theorem threaded_eq_specPack (P : Params) (hc : CodecOk P.codec) (hpos : ∀ x z, P.codec.cmp x = some z → 0 < z.length)
+    (hbc : P.byteCompare = true) (hB0 : 0 < P.B) (hB : P.B < 2 ^ 24) (n : Nat) (beh : List Pool.Op → Pool.Ret)
+    (h : RealisedBy n beh) (mb : Nat) (files : List InFile)
+    (hfl : ∀ f ∈ files, f.flags &&& Consts.blkUserSettable = f.flags) :
+    ∃ out, run { P with ans := behAns beh } mb files = .ok out ∧
+      out.view = specView P.pre (Sqfs.Pack.specPack (toPackParams P) (toPackFiles files)) := by
+  have : ({ P with ans := behAns beh } : Params) = serial P := by
+    unfold serial; rw [realised_eq_serial n beh h]
+  rw [this]
+  exact run_eq_specPack P hc hpos hbc hB0 hB mb files hfl
+
+/-- **`threaded_readback`** (carry-over of C08 / C17's read-back theorem `Sqfs.C17.directives_preserve_content`).  Whatever
+the number of workers, the schedule and the backlog: the image the threaded block processor writes is the `specView` of the
+`specPack` layout `o`, the inode it produces for file `i` is the view of `o`'s result `r`, and reading file `i` back from
+that layout — block words in order, a hole as zeros, a stored block through `unc` unless raw, the tail end from its
+fragment block — yields exactly the file's input bytes. -/
+theorem threaded_readback (P : Params) (hc : CodecOk P.codec) (hpos : ∀ x z, P.codec.cmp x = some z → 0 < z.length)
+    (hbc : P.byteCompare = true) (hB0 : 0 < P.B) (hB : P.B < 2 ^ 24) (n : Nat) (beh : List Pool.Op → Pool.Ret)
+    (h : RealisedBy n beh) (mb : Nat) (files : List InFile)
+    (hfl : ∀ f ∈ files, f.flags &&& Consts.blkUserSettable = f.flags) (i : Nat) (hi : i < files.length) :
+    let o := Sqfs.Pack.specPack (toPackParams P) (toPackFiles files)
+    ∃ out r, run { P with ans := behAns beh } mb files = .ok out ∧ out.view = specView P.pre o ∧
+      o.files[i]? = some r ∧ out.files[i]? = some (resView r) ∧
+      Sqfs.Pack.readFile (toPackParams P) o r = files[i].data := by
+  intro o
+  obtain ⟨out, hrun, hview⟩ := threaded_eq_specPack P hc hpos hbc hB0 hB n beh h mb files hfl
+  have hi' : i < (toPackFiles files).length := by simpa [toPackFiles] using hi
+  obtain ⟨r, hr, hread⟩ := Sqfs.C17.directives_preserve_content (toPackParams P) hB0 (toPack_codec_ok P hc hpos)
+    (toPackFiles files) i hi'
+  refine ⟨out, r, hrun, hview, hr, ?_, ?_⟩
+  · have hf : out.files = o.files.map resView := congrArg PackView.files hview
+    rw [hf, List.getElem?_map, hr]; rfl
+  · rw [hread]; simp [toPackFiles]
+
+/-- **`threaded_directives`** (carry-over of C17's directive theorems).  Whatever the number of workers, the schedule and
+the backlog, the image the threaded block processor writes is the view of a layout `o` in which every packing directive
+has exactly its effect: `dont_compress` (block words raw or holes, the fragment block of the tail stored raw),
+`dont_fragment` (no fragment reference, `⌈size / B⌉` block words), `nosparse` (no hole, sparse counter 0, not extended, the
+tail gets a fragment reference), `dont_deduplicate` (own blocks behind every earlier file's, own fragment slot), and the
+layout follows the order of the file list. -/
+theorem threaded_directives (P : Params) (hc : CodecOk P.codec) (hpos : ∀ x z, P.codec.cmp x = some z → 0 < z.length)
+    (hbc : P.byteCompare = true) (hB0 : 0 < P.B) (hB : P.B < 2 ^ 24) (n : Nat) (beh : List Pool.Op → Pool.Ret)
+    (h : RealisedBy n beh) (mb : Nat) (files : List InFile)
+    (hfl : ∀ f ∈ files, f.flags &&& Consts.blkUserSettable = f.flags) :
+    let Q := toPackParams P
+    let F := toPackFiles files
+    let o := Sqfs.Pack.specPack Q F
+    ∃ out, run { P with ans := behAns beh } mb files = .ok out ∧ out.view = specView P.pre o ∧
+      (∀ i (hi : i < F.length), F[i].flags.dontCompress = true →
+        ∃ r, o.files[i]? = some r ∧ (∀ w ∈ r.words, w = .sparse ∨ ∃ k, w = .stored k true) ∧
+          (∀ k off, r.frag = some (k, off) → ∃ e, o.frags[k]? = some e ∧ e.raw = true)) ∧
+      (∀ i (hi : i < F.length), F[i].flags.dontFragment = true →
+        ∃ r, o.files[i]? = some r ∧ r.frag = none ∧
+          r.words.length = F[i].data.length / Q.B + (if F[i].data.length % Q.B > 0 then 1 else 0)) ∧
+      (∀ i (hi : i < F.length), F[i].flags.ignoreSparse = true →
+        ∃ r, o.files[i]? = some r ∧ (∀ w ∈ r.words, w ≠ .sparse) ∧ r.sparse = 0 ∧ r.extended = false ∧
+          (Sqfs.Pack.hasTailFrag Q.B F[i] = true → ∃ idx off, r.frag = some (idx, off))) ∧
+      (∀ i j (hij : i < j) (hj : j < F.length), F[j].flags.dontDedup = true →
+        ∃ ri rj, o.files[i]? = some ri ∧ o.files[j]? = some rj ∧ rj.shared = false ∧
+          (Sqfs.Pack.diskBytes rj.words > 0 → ri.start + Sqfs.Pack.diskBytes ri.words ≤ rj.start) ∧
+          (∀ a off b off', ri.frag = some (a, off) → rj.frag = some (b, off') →
+            a ≠ b ∨ off + (F[i]'(by omega)).data.length % Q.B ≤ off')) ∧
+      (∀ i j (hij : i < j) (hj : j < F.length),
+        ∃ ri rj, o.files[i]? = some ri ∧ o.files[j]? = some rj ∧
+          (rj.shared = false → (∃ k raw, Sqfs.Pack.Word.stored k raw ∈ rj.words) →
+            ri.start + Sqfs.Pack.diskBytes ri.words ≤ rj.start ∧
+            ((∃ k raw, Sqfs.Pack.Word.stored k raw ∈ ri.words) → ri.start < rj.start))) := by
+  intro Q F o
+  obtain ⟨out, hrun, hview⟩ := threaded_eq_specPack P hc hpos hbc hB0 hB n beh h mb files hfl
+  have hcQ := toPack_codec_ok P hc hpos
+  exact ⟨out, hrun, hview,
+    fun i hi hf => Sqfs.C17.dont_compress_effect Q F i hi hf,
+    fun i hi hf => Sqfs.C17.dont_fragment_effect Q F i hi hf,
+    fun i hi hf => Sqfs.C17.nosparse_effect Q F i hi hf,
+    fun i j hij hj hf => Sqfs.C17.dont_dedup_effect Q F i j hij hj hf,
+    fun i j hij hj => Sqfs.C17.layout_follows_order Q hB0 hcQ F i j hij hj⟩
 
 /-- **`script_schedule_independent`.**  The same for every *API script* — files, `sqfs_block_processor_submit_block`
 (manual submission) and `sqfs_block_processor_sync` calls in any order (`ApiOp`, Sqfs/Model/BlockProcFail.lean) — and for
